@@ -203,7 +203,8 @@ PyFloatText(t) ==
                    m    == NatOf(ip \o fp, 0)
                    sc   == Len(fp) + (IF eneg THEN e ELSE 0)            \* power of ten in the denominator
                    up   == IF eneg THEN 0 ELSE e                       \* power of ten in the numerator
-               IN Signed(neg, Fin(m * Pow(10, up), Pow(10, sc)))
+               IN IF m = 0 THEN Signed(neg, Fin(0, 1))                  \* 0e999 is 0 (and no power of ten is computed)
+                  ELSE Signed(neg, Fin(m * Pow(10, up), Pow(10, sc)))
 
 (***************************************************************************)
 (* Part 3.  Restricted number types.                                       *)
